@@ -48,6 +48,14 @@ Assumptions (this file is part of the trusted base; spec/Store.tla states the sa
      without content it issues no command.  `RedisDict.__getitem__`/`__delitem__` raise
      KeyError for a missing member; `RedisList` index errors are IndexError.  Iterating a
      RedisDict is HSCAN (keys) and HGET per member; a RedisList is LLEN/LINDEX/LRANGE.
+ A9  PUBLISH reaches every connection subscribed to the channel -- also `__redis__:invalidate`, which
+     is an ordinary channel name for PUBLISH: a message published there by one client arrives at the
+     tracker connection of EVERY client (redis-py then calls that subscription's handler with `data`
+     = the published bytes).  For a subscription without handler the message is what `listen()`
+     yields; for one with a handler it is queued like an invalidation and handed over by
+     `deliver_invalidation`.  If a handler raises, the exception reaches the harness and the
+     subscription is dead from then on (in redis-py the exception ends `listen()` and with it the
+     listener thread): later messages stay queued for ever.
  A8  `info("server")["redis_version"]` is "6.2.0" unless `reset_server(version=...)` says
      otherwise.
 """
@@ -181,11 +189,18 @@ class Server:
             return False
         data = q.popleft()
         ps = self.pubsubs.get(client_id)
+        if ps is not None and ps.dead:
+            q.appendleft(data)              # nobody is listening any more
+            return False
         h = ps.handlers.get(INVALIDATE) if ps is not None else None
         if h is None:
             self.dropped += 1
             return False
-        h({"type": "message", "pattern": None, "channel": INVALIDATE.encode(), "data": data})
+        try:
+            h({"type": "message", "pattern": None, "channel": INVALIDATE.encode(), "data": data})
+        except Exception:
+            ps.dead = True                  # the listener thread would have died with this exception
+            raise
         return True
 
     def redirect_of(self, client):
@@ -283,6 +298,7 @@ class PubSub:
         self.inbox = collections.deque()
         self.event = threading.Event()
         self.closed = False
+        self.dead = False
         client.server._listeners.append(self)
 
     def subscribed(self, name):
